@@ -116,6 +116,9 @@ spec fn cslot(c: u32) -> u32 { c & 0x3ffffff }
 spec fn cval(c: u32) -> u8 { (c >> 26) as u8 }
 
 fn get_slot ( coupon : u32 ) -> ( r : u32 ) ensures r == cslot ( coupon ) {
+proof {
+assert ( coupon & 0x3ffffff == coupon % 0x4000000 && coupon & 0x3ffffff == 0x3ffffff & coupon ) by ( bit_vector ) ;
+}
 coupon & KEY_MASK_26 }
 
 
@@ -123,6 +126,7 @@ coupon & KEY_MASK_26 }
 fn get_value ( coupon : u32 ) -> ( r : u8 ) ensures r == cval ( coupon ) , r <= 63 {
 proof {
 assert ( ( coupon >> 26 ) <= 63 ) by ( bit_vector ) ;
+assert ( coupon >> 26 == coupon / 0x4000000 && ( 1u32 << 26 ) == 0x4000000 ) by ( bit_vector ) ;
 }
 ( coupon >> KEY_BITS_26 ) as u8 }
 
@@ -300,7 +304,7 @@ assert ( start_bit & 7 == start_bit % 8 ) by ( bit_vector ) ;
 }
 let two_bytes = vx_u16_from_le_bytes ( [ self . bytes [ byte_idx ] , self . bytes [ byte_idx + 1 ] ] ) ;
 proof {
-assert ( ( ( two_bytes >> shift ) & 0x3f ) <= 63 ) by ( bit_vector ) ;
+assert ( ( ( two_bytes >> shift ) & 0x3f ) <= 63 && ( two_bytes >> shift ) & 0x3f == 0x3f & ( two_bytes >> shift ) ) by ( bit_vector ) ;
 }
 ( ( two_bytes >> shift ) & VAL_MASK_6 ) as u8 }
 
@@ -360,6 +364,9 @@ let mask = ( 1 << self . lg_config_k ) - 1 ;
 let slot = get_slot ( coupon ) & mask ;
 let new_value = get_value ( coupon ) ;
 let old_value = self . get_raw ( slot ) ;
+proof {
+assert ( old ( self ) . regs ( ) . update ( slot as int , old_value ) =~= old ( self ) . regs ( ) ) ;
+}
 if new_value > old_value {
 self . estimator . update ( self . lg_config_k , old_value , new_value ) ;
 self . put_raw ( slot , new_value ) ;
@@ -369,11 +376,6 @@ lemma_cnt0_bounds ( old ( self ) . regs ( ) , self . k ( ) , slot as int ) ;
 }
 if old_value == 0 {
 self . num_zeros -= 1 ;
-}
-}
-else {
-proof {
-assert ( old ( self ) . regs ( ) . update ( slot as int , old_value ) =~= old ( self ) . regs ( ) ) ;
 }
 }
 }
